@@ -400,24 +400,37 @@ pub fn run_check(prop: &dyn Property, tier: Tier) -> i32 {
             "message": fv.msg, "minimised": minimised, "shrink_candidates_tried": used, "parent": orig_path.to_string_lossy(),
             "scenario": fin_sc, "trace": fin_out.trace});
         let _ = std::fs::write(&path, serde_json::to_vec_pretty(&doc).unwrap());
-        // replay in a fresh process
-        let mut reproduced = 0;
-        let tries = 3;
-        for _ in 0..tries {
-            let st = std::process::Command::new(std::env::current_exe().unwrap())
+        // replay in a fresh process: the minimised file first; if that never reproduces (a verdict that
+        // hangs on a choice the kernel makes, e.g. which of two simultaneous binds wins), the original
+        let replay_once = |p: &std::path::Path| -> bool {
+            std::process::Command::new(std::env::current_exe().unwrap())
                 .arg("replay")
-                .arg(&path)
+                .arg(p)
                 .stdout(std::process::Stdio::null())
-                .status();
-            if let Ok(st) = st {
-                if st.code() == Some(1) {
+                .status()
+                .map(|st| st.code() == Some(1))
+                .unwrap_or(false)
+        };
+        let mut reproduced = 0;
+        let tries = 5;
+        let mut path = path;
+        for _ in 0..tries {
+            if replay_once(&path) {
+                reproduced += 1;
+                break;
+            }
+        }
+        if reproduced == 0 && minimised {
+            for _ in 0..tries {
+                if replay_once(&orig_path) {
                     reproduced += 1;
+                    path = orig_path.clone();
                     break;
                 }
             }
         }
         println!("violation check={} index={} : {}", key, idx, fv.msg);
-        println!("replay verification: reproduced={} (of up to {} fresh-process attempts)", reproduced > 0, tries);
+        println!("replay verification: reproduced={} (of up to {} fresh-process attempts per file)", reproduced > 0, tries);
         if reproduced > 0 {
             println!("VIOLATION property={} replay={}", pid, path.display());
             exit_code = 1;
